@@ -4,7 +4,7 @@ import sys
 import time
 import traceback
 
-from . import common, facts, interp, wire, rules_wire, rules_header, rules_hash, golden, hashrec, rules_align, gen_units
+from . import common, facts, interp, wire, rules_wire, rules_header, rules_hash, golden, hashrec, rules_align, gen_units, guards
 from .common import Report, Facts, ExportError
 
 ASSUME_COMMON = [
@@ -351,7 +351,7 @@ def check_C07(ctx):
     rep.rule("M2", "derived max_size_of returns the maximum over align_of::<Self>() and the unit of every field")
     rep.rule("ALIGN", "all four align implementations move by pad_align_to(position of self, unit(T)); writers emit only zero bytes; a path that emits nothing knows the padding is zero")
     rep.rule("POS", "position-tracking wrappers advance by exactly the bytes moved, after success; Serialize::serialize returns the position after the last write")
-    wire_props(ctx, ("full", "eps"), ("W4",), 56)
+    wire_props(ctx, ("full", "eps"), ("W4", "W5"), 56)
     try:
         u, cname = units_universe(ctx)
     except ExportError as ex:
@@ -371,7 +371,147 @@ def check_C07(ctx):
             "offset/unit pair) is NOT decided.")
 
 
-CHECKS = {"C07": check_C07, "C04": check_C04, "C06": check_C06, "C10": check_C10, "C01": check_C01, "C02": check_C02, "C15": check_C15, "C05": check_C05}
+def check_C16(ctx):
+    import json
+    rep = ctx.rep
+    rep.rule("H4", "&[T] and SerIter<T,_> delegate both hashes to Vec<T>; their SerType is Vec<T> (so the header is that of the vector)")
+    rep.rule("W1-view", "wire term of &[T] is F(Vec<T>) built from self's own pointer and length; wire terms of SerIter (Zero and Deep helper) equal those of Vec<T> for the same copy kind")
+    rep.rule("LEN", "SerIter: the announced length is written before iterating; after the loop `yielded != announced` returns IteratorLengthMismatch{actual: yielded, expected: announced}; success requires equality")
+    rep.rule("ASSOC", "derived SerType substitutes <A as SerializeInner>::SerType for parameter-typed fields (corpus aliases)")
+    u, w, ts, exp = ctx.triples("default", CORPUS)
+    recs = rules_hash.collect(u, rep)
+    rules_hash.rule_H4(u, recs, rep)
+    byname = {}
+    for t in ts:
+        byname[t.key] = t
+    # --- &[T]
+    tsl = [t for t in ts if t.crate == "epserde" and t.ser_impl is not None and t.ser_impl.self_ty[0] == "ref" and t.ser_impl.self_ty[2][0] == "slice"]
+    rep.floor("slice view impl", len(tsl), 1)
+    for t in tsl:
+        elem = t.ser_impl.self_ty[2][1]
+        for p in t.paths.get("ser", []) or []:
+            if p.outcome == "panic":
+                continue
+            ok = p.outcome == "ok" and len(p.atoms) == 1 and p.atoms[0].k == "F" and p.atoms[0].ty[0] == "adt" and p.atoms[0].ty[1] == "alloc::vec::Vec" and p.atoms[0].ty[2][0] == elem
+            rep.oblige(ok)
+            if not ok:
+                rep.add("W1-view", "slice:term", "`&[T]` is not written as exactly one Vec<T>: %s (%s)" % (p.show(), p.outcome), t.loc)
+                continue
+            src = p.atoms[0].src
+            lab = guards_label(src)
+            ok = "self" in lab and lab.count("len(self)") >= 2 and "elems" not in lab.replace("ptrto", "")
+            good = isinstance(src, tuple) and src and src[0] == "call" and src[1] == "from_raw_parts" and len(src[2]) == 3 and \
+                src[2][1] == ("len", ("self",)) and src[2][2] == ("len", ("self",)) and isinstance(src[2][0], tuple) and src[2][0][0] == "ptrto" and src[2][0][1] == ("elems", ("self",))
+            direct = src == ("self",)
+            rep.oblige(good or direct)
+            if not (good or direct):
+                rep.add("W1-view", "slice:source", "the vector written for `&[T]` is not built from self's own pointer and length (len, len): %s" % lab, t.loc)
+    # --- SerIter helpers against Vec helpers
+    helper = "epserde::ser::SerializeHelper"
+    terms = {}
+    for im in u.impls_by_trait.get(helper, []):
+        st = im.self_ty
+        kind = facts.ty_str(im.trait_args[1]) if len(im.trait_args) > 1 else "?"
+        name = "SerIter" if (st[0] == "adt" and st[1].endswith("::SerIter")) else "Vec" if (st[0] == "adt" and st[1] == "alloc::vec::Vec") else None
+        if name is None:
+            continue
+        b = u.body(im.item_id("_serialize_inner"))
+        try:
+            ip, paths = w.extract(b, "ser")
+        except interp.Unsupported as ex:
+            rep.add("EXTRACT", "%s:%s" % (name, kind), "cannot extract %s helper of %s: %s" % (kind, name, ex), im.loc())
+            continue
+        terms[(name, kind)] = (im, paths)
+    n = 0
+    for kind in ("Zero", "Deep"):
+        a, b_ = terms.get(("SerIter", kind)), terms.get(("Vec", kind))
+        if a is None or b_ is None:
+            rep.add("W1-view", "seriter:%s:missing" % kind, "missing %s helper impl for SerIter or Vec" % kind)
+            continue
+        sa = [p for p in a[1] if p.outcome == "ok"]
+        sb = [p for p in b_[1] if p.outcome == "ok"]
+        ka = set(tuple(x.key() for x in rename_T(p.atoms)) for p in sa)
+        kb = set(tuple(x.key() for x in rename_T(p.atoms)) for p in sb)
+        ok = ka == kb and len(ka) == 1
+        rep.oblige(ok)
+        n += 1
+        if not ok:
+            rep.add("W1-view", "seriter:%s" % kind, "SerIter (%s elements) writes [%s] but Vec<T> writes [%s]" % (kind, " | ".join(p.show() for p in sa), " | ".join(p.show() for p in sb)), a[0].loc())
+        elif len(rep.samples) < 8:
+            rep.sample({"SerIter_vs_Vec": kind, "term": sa[0].show()})
+        # LEN: error path
+        errs = [p for p in a[1] if p.outcome == "err"]
+        okp = False
+        for p in errs:
+            out = guards.outcome_of(u, p.raw)
+            if out[0] == "err" and out[1].endswith("IteratorLengthMismatch"):
+                announced = None
+                for at in p.atoms:
+                    if at.k == "F" and at.ty == ("prim", "usize"):
+                        announced = guards.label(at.src)
+                        break
+                pay = out[2]
+                rows = [guards.row_str(guards.norm_cond(c)) for c in p.raw.conds]
+                cond_ok = any(("items_yielded" in r and " Ne " in r and announced and announced in r) for r in rows)
+                if pay.get("actual", "").startswith("items_yielded") and pay.get("expected") == announced and cond_ok:
+                    okp = True
+                else:
+                    rep.add("LEN", "seriter:%s:payload" % kind, "SerIter (%s): length mismatch is reported as %s under %s; expected actual=items yielded, expected=%s under `yielded != announced`" % (kind, pay, rows[-1:] , announced), a[0].loc())
+        rep.oblige(okp)
+        if not okp and not any(f.rule == "LEN" for f in rep.findings):
+            rep.add("LEN", "seriter:%s:missing" % kind, "SerIter (%s): no path returns IteratorLengthMismatch when the iterator yields a different number of items than announced" % kind, a[0].loc())
+        # success requires equality
+        for p in sa:
+            rows = [guards.row_str(guards.norm_cond(c)) for c in p.raw.conds]
+            eq = any("items_yielded" in r and " Eq " in r for r in rows)
+            rep.oblige(eq)
+            if not eq:
+                rep.add("LEN", "seriter:%s:success" % kind, "SerIter (%s) can succeed without having established yielded == announced (%s)" % (kind, rows), a[0].loc())
+    rep.floor("SerIter/Vec helper pairs compared", n, 2)
+    # derived SerType aliases
+    expj = json.load(open(os.path.join(common.VERIF, "witness", "wcorpus", "expect.json")))
+    m = 0
+    for name, want in expj["aliases"].items():
+        if not name.startswith("S"):
+            continue
+        ent = u.aliases.get("wcorpus::" + name)
+        got = None
+        if ent:
+            c, aj = ent
+            l = aj.get("layout")
+            got = c.raw_tys[l["norm"]]["s"] if l else None
+        ok = got == want
+        rep.oblige(ok)
+        m += 1
+        if not ok:
+            rep.add("ASSOC", name, "SerType alias %s normalises to `%s`, expected `%s`" % (name, got, want))
+    rep.floor("SerType equalities", m, 6)
+    return ("The two write-only views are compared with the vector as wire terms and hash recipes (sibling agreement), their SerType is normalised by rustc, "
+            "and the iterator length check is extracted as a guard row. Byte equality on concrete contents follows from term equality plus shared leaf writers; it is not separately decided.")
+
+
+def guards_label(v):
+    return guards.label(v)
+
+
+def rename_T(atoms):
+    """atoms with every type parameter renamed to a canonical name (SerIter<'a,T,I> vs Vec<T> have different indices)"""
+    out = []
+    for a in atoms:
+        b = wire.Atom(a.k, canon_params(a.ty), a.n, a.src, a.atom, a.mode, a.sp, rename_T(a.body) if a.body else None, a.name, a.content)
+        out.append(b)
+    return out
+
+
+def canon_params(t):
+    if not isinstance(t, tuple) or not t:
+        return t
+    if t[0] == "param":
+        return ("param", t[1], 0)
+    return tuple(canon_params(x) if isinstance(x, tuple) else x for x in t)
+
+
+CHECKS = {"C16": check_C16, "C07": check_C07, "C04": check_C04, "C06": check_C06, "C10": check_C10, "C01": check_C01, "C02": check_C02, "C15": check_C15, "C05": check_C05}
 
 
 def main(argv):
